@@ -91,7 +91,12 @@ Excluded by construction:
   * AS-specific spellings of tests/t_56000 (x:#imm, L: move without prefix, MOVEM without P:)
   * most move classes are combined with every Data ALU operation; the rarer ones (forced sizes, L:, X:R, R:Y, X:Y)
     with MOVE and a rotating selection of operations, since the two fields are independent
-  * DSP56300: not modelled (the additions of that core are too many to be written from memory with certainty)
+  * KNOWN: CMP B,A / CMP A,B (see the table of Data ALU operations below and proposed/C14/dsp56k-cmp-acc-opcode.md)
+  * DSP56002 / DSP56300: the reduced cross product (every Data ALU operation without move, MOVE with every move class,
+    all instructions without parallel move) plus INC / DEC; of the DSP56300's additions only MAX / MAXM and the Data ALU
+    operations with immediate operand (ADD SUB CMP AND OR EOR #xx / #xxxxxx) are modelled - the others are not
+    written down here with certainty; its address space is 16M words, X:/Y:$FFFF80..$FFFFBF (I/O short qq) is not
+    generated
 """
 from .common import Form, Int, Enum, Isa
 from .m68k import BigEndianWords      # listing words of a big-endian code file (golden cross-check only)
